@@ -2,7 +2,7 @@
    Print Assumptions is run on every Theorem by bin/check. *)
 From Coq Require Import List NArith ZArith Bool Lia.
 From V Require Import C12.Model C13.Model C13.Proofs C13.Proofs_Votes C13.Proofs_Replay C13.Proofs_Commit C13.Proofs_Resume
-  C13.Proofs_Obs C13.Proofs_ObsStep C13.Proofs_Crash C13.Proofs_Final.
+  C13.Proofs_Obs C13.Proofs_ObsStep C13.Proofs_Crash C13.Proofs_Final C13.Proofs_State C13.Proofs_Tail.
 Import ListNotations.
 Open Scope N_scope.
 
@@ -74,7 +74,7 @@ Proof. exact life_one_per_slot. Qed.
    restarted process can still vote in; older heights were committed and pruned).  Missing link: value_deterministic -> replay_covers (replay of the durable prefix
    reproduces the pre-crash votes); checked on every run by the harness on the real driver, and it is
    exactly what fails in C13_proposer_refuted. *)
-Theorem C13_no_conflict_partial : forall E h D n ins pre,
+Theorem C13_no_conflict_if_covers : forall E h D n ins pre,
   life_disc E h D n ins = true ->
   replay_covers pre (flat (snd (lifetime E h D n ins))) = true ->
   no_conflict pre (flat (snd (lifetime E h D n ins))) = true.
@@ -100,6 +100,34 @@ Theorem C13_no_conflict : forall E h0 ins1 k n2 ins2,
    no_conflict pre (flat (snd post)) = true).
 Proof. exact no_conflict_plain. Qed.
 
+(* C13_replay_prefix.  For every kill point of a plain life: the consensus state recovered from what is on
+   disk is, up to obs_eq, the state the killed life had at one of its call boundaries (life_states: the states
+   between two calls of the state machine, each with the inputs not yet consumed) - the state after the durable
+   input prefix; and every vote broadcast before the kill for the resume height is broadcast again by the
+   replay (every pre-crash broadcast lies within what that prefix produces). *)
+Theorem C13_replay_prefix : forall E h0 ins1 k n2,
+  value_deterministic E -> quorum_positive E -> good_run E h0 ins1 = true ->
+  let effs := flat (snd (lifetime E h0 [] 0 ins1)) in
+  let pre := firstn k effs in
+  (exists sd rest, In (sd, rest) (life_states E h0 ins1) /\
+     obs_eq (d_sm (fst (recover E (resume_height h0 pre) (crash_at k effs []) n2))) sd) /\
+  (forall kd v, In v (votes_in kd pre) -> resume_height h0 pre <= v_h v ->
+     In v (votes_in kd (flat (snd (recover E (resume_height h0 pre) (crash_at k effs []) n2))))).
+Proof. exact replay_prefix_plain. Qed.
+
+(* C13_same_final_state.  ... and if the restarted process is then given the inputs the killed life had not
+   consumed at that boundary, it ends (up to obs_eq) in the consensus state the life reaches when it is never
+   killed. *)
+Theorem C13_same_final_state : forall E h0 ins1 k n2,
+  value_deterministic E -> quorum_positive E -> good_run E h0 ins1 = true ->
+  let effs := flat (snd (lifetime E h0 [] 0 ins1)) in
+  let pre := firstn k effs in
+  exists sd rest, In (sd, rest) (life_states E h0 ins1) /\
+    obs_eq (d_sm (fst (recover E (resume_height h0 pre) (crash_at k effs []) n2))) sd /\
+    obs_eq (d_sm (fst (lifetime E (resume_height h0 pre) (crash_at k effs []) n2 rest)))
+           (d_sm (fst (lifetime E h0 [] 0 ins1))).
+Proof. exact same_final_plain. Qed.
+
 (* the state machine respects the observational equivalence the replay theorems are stated with *)
 Theorem C13_step_respects_obs_eq : forall c, (forall h, 0 < q_of (c_total c h)) -> forall s s' i,
   obs_eq s s' ->
@@ -113,7 +141,7 @@ Proof. exact step_x_obs. Qed.
    replay, the recovered consensus state and the log do not depend on what the application was asked
    before; (2) the recovered consensus state is the fold of ProcessWAL (the same step function, effects
    play no role) over the loaded entries that are not below the machine's height. *)
-Theorem C13_replay_prefix_partial : forall E, value_deterministic E -> forall h D n m,
+Theorem C13_replay_deterministic : forall E, value_deterministic E -> forall h D n m,
   snd (recover E h D n) = snd (recover E h D m) /\
   d_sm (fst (recover E h D n)) = d_sm (fst (recover E h D m)) /\
   d_wal (fst (recover E h D n)) = d_wal (fst (recover E h D m)).
@@ -211,3 +239,47 @@ Proof.
   intros h r. unfold cell, row, fut, st_a, st_b. simpl. destruct (h =? 1); [|reflexivity].
   unfold rm_get. simpl. destruct (r =? 0)%Z; reflexivity.
 Qed.
+
+(* the "stale timeout finds no rule pending" clause of good_run is not decorative (reproduced on the real
+   driver: class recovery:stale-timeout-commits-unlogged).  Validator 3 of 4; the round-1 proposal re-proposes
+   11 with valid round 0; the last round-0 prevote arrives late: the validator prevotes and precommits, its
+   own precommit completes the quorum, but processLoop only looks at the proposal of the round of the message
+   just received (round 0), so the commit stays pending; then a stale propose timeout (not logged: it matches
+   nothing) runs processLoop and commits: a commit callback in a call none of whose input was logged. *)
+Definition ex_cfg3 : cfg :=
+  mkCfg 3 (fun _ => 4) (fun _ a => if a <? 4 then 1 else 0) (fun _ r => Z.to_N (r mod 4)%Z)
+        (fun _ => true) (fun v => v) (fun _ => 0).
+Definition ex_env3 : env := mkEnv ex_cfg3 (fun _ _ _ => 7).
+Definition stale_ins : list input :=
+  [ITimeout SPropose 1 0; IPrevote (mkV 1 0 0 (Some 11)); IPrevote (mkV 1 0 1 (Some 11));
+   IPrecommit (mkV 1 0 0 None); IPrecommit (mkV 1 0 1 None); IPrecommit (mkV 1 0 2 None);
+   ITimeout SPrecommit 1 0; IProposal (mkP 1 1 1 0 11);
+   IPrevote (mkV 1 1 0 (Some 11)); IPrevote (mkV 1 1 1 (Some 11));
+   IPrecommit (mkV 1 1 0 (Some 11)); IPrecommit (mkV 1 1 1 (Some 11));
+   IPrevote (mkV 1 0 2 (Some 11))].
+Example C13_stale_timeout_needed :
+  good_run ex_env3 1 stale_ins = true /\
+  good_run ex_env3 1 (stale_ins ++ [ITimeout SPropose 1 1]) = false /\
+  logged_first (snd (lifetime ex_env3 1 [] 0 stale_ins)) = true /\
+  logged_first (snd (lifetime ex_env3 1 [] 0 (stale_ins ++ [ITimeout SPropose 1 1]))) = false /\
+  In (LIn (ITimeout SPropose 1 1), [Flush; CommitCb 1 11; Prune 1; Flush])
+     (snd (lifetime ex_env3 1 [] 0 (stale_ins ++ [ITimeout SPropose 1 1]))).
+Proof. vm_compute. repeat split; auto 20. Qed.
+
+(* why the replay theorems exclude messages for future heights: a precommit that completes a quorum for a
+   FUTURE height is added to the vote counter but is not logged (process.go returns TriggerSync before
+   processMessage).  Validator 3 of 4 at height 1 receives precommits for (height 2, round 0, id 5) from 0, 1, 2:
+   the first two are logged, the third only triggers the sync.  After a kill at the very end (everything
+   flushed by the later prevote) the recovered counter holds 2 of them, the live one 3: the recovered state is
+   not obs_eq to the state the life ended in, although all its inputs were "consumed". *)
+Definition fut_ins : list input :=
+  [IPrecommit (mkV 2 0 0 (Some 5)); IPrecommit (mkV 2 0 1 (Some 5)); IPrecommit (mkV 2 0 2 (Some 5));
+   ITimeout SPropose 1 0].
+Definition pc_count (s : state) : N := r_count_vote (cell (s_vc s) 2 0) Precommit (Some 5).
+Example C13_future_quorum_precommit_lost :
+  good_run ex_env3 1 fut_ins = false /\
+  (let effs := flat (snd (lifetime ex_env3 1 [] 0 fut_ins)) in
+   let k := length effs in
+   pc_count (d_sm (fst (lifetime ex_env3 1 [] 0 fut_ins))) = 3 /\
+   pc_count (d_sm (fst (recover ex_env3 (resume_height 1 (firstn k effs)) (crash_at k effs []) 0))) = 2).
+Proof. vm_compute. repeat split; reflexivity. Qed.
